@@ -96,6 +96,16 @@ CHECKS = {
         note=TB + "; the initiator is assumed protocol-abiding (holds a transfer until acknowledged), as the property states.",
         technique="TLA+ spec + TLC model checking; TLC-generated behaviours replayed on the real design; TLC trace validation",
         design="5 (C10)"),
+    "C07": dict(
+        text=("TLC model-checks specs/WbDecoder_MC.tla (every set/order of <=2(3) dense windows, 1-2 granules "
+              "per word, feature subsets on decoder and subordinates, every request vector and response of the "
+              "selected subordinate; at most one cyc, owner = emitted pattern with granularity bits stripped, "
+              "offset, optional-signal defaults, response relay, silence when nobody is selected); every "
+              "exported vector is applied to the real wishbone.Decoder; random decoders with dense "
+              "equal-granularity and sparse windows are validated by TLC."),
+        note=TB + "; subordinates are assumed to respond only while selected (as the property states); a window padded by the decoder alignment is taken to hold only the subordinate's own 2^aw addresses.",
+        technique="TLA+ spec + TLC model checking; exported vectors replayed on the real design; TLC trace validation",
+        design="5 (C07)"),
 }
 
 PENDING = "check not built yet in this round; see DESIGN.md section 13 for the build order"
